@@ -21,7 +21,9 @@ ID = "C14"
 LEVEL = "exploration"
 RULE = ("systems of 2-4 plain molecules from a pool with heavy-atom masses 12..786 (mass ratios up to 65) with "
         "declared fractions >= 2 %, mixed absolute/percent specifiers, system mass = 2000-6000 mean molecule masses, one ensemble per "
-        "seed through System.generator with a recording generator; non-trivial = mass ratio >= 3 between two components and "
+        "seed through System.generator with a recording generator; plus systems of 2-3 polymer components (five polymers x nine narrow or "
+        "broad distributions, small molecules mixed in, half of them blends of two grades of the same polymer) with membership by residue "
+        "tags; non-trivial = mass ratio >= 3 between two components and "
         "fractions not all equal; distinct = (system string, seed)")
 ASSUMPTIONS = ["declared mass fractions are the ones the generator wrote into the string (absolute mass / system mass, or the percentage)",
                "tolerance 8 sigma of the ideal independent-pick scheme + stop-rule overshoot; a rejection is re-run with another seed"]
@@ -170,16 +172,153 @@ def check(acc, smis, frac, nmol, kinds, seed):
                     "tolerance": [round(eps(i), 4) for i in range(len(smis))]})
 
 
+# ------------------------------------------------------------------------------------- polymer components, blends of one polymer
+TEMPLATES = ["[H]{[>][<]CC[>][<]}|%s|[H]", "C{[$][$]CC[$],[$]CC(C)[$][$]}|%s|C", "{[][<]CCO[>];[<][H],[>]O[]}|%s|",
+             "N{[<][>]C(=O)CN[<][>]}|%s|O", "[H]{[>][<]CC([>])c1ccccc1[<]}|%s|[H]"]
+DISTS = ["gauss(300, 10)", "gauss(1200, 40)", "gauss(3000, 100)", "uniform(200, 260)", "uniform(900, 1100)", "poisson(400)",
+         "schulz_zimm(660, 600)", "log_normal(800, 1.02)", "flory_schulz(0.02)"]
+SMALL = ["CCO", "CO", "IC(I)I", "c1ccccc1", "CCCCCCCCN"]
+
+
+@st.composite
+def poly_case(draw):
+    n = draw(st.integers(2, 3))
+    comps = []
+    if draw(st.booleans()):
+        # a blend of two grades of the same polymer: identical text apart from the distribution
+        t = draw(st.sampled_from(TEMPLATES))
+        d1, d2 = draw(st.lists(st.sampled_from(DISTS), min_size=2, max_size=2, unique=True))
+        comps = [t % d1, t % d2]
+    while len(comps) < n:
+        c = draw(st.sampled_from(SMALL)) if draw(st.integers(0, 2)) == 0 else draw(st.sampled_from(TEMPLATES)) % draw(st.sampled_from(DISTS))
+        if c not in comps:
+            comps.append(c)
+    parts = [draw(st.integers(1, 10)) for _ in comps]
+    frac = [max(0.05, p / sum(parts)) for p in parts]
+    frac = [f / sum(frac) for f in frac]
+    kinds = [draw(st.sampled_from(["abs", "pct"])) for _ in comps]
+    if "abs" not in kinds:
+        kinds[0] = "abs"
+    order = draw(st.permutations(list(range(len(comps)))))
+    return [comps[i] for i in order], [frac[i] for i in order], draw(st.integers(250, 500)), [kinds[i] for i in order], draw(st.integers(0, 2**31 - 1))
+
+
+def check_poly(acc, comps, frac, nmol, kinds, seed):
+    """outcome view for components whose members have random masses; membership by residue tags (token identity)"""
+    import gbigsmiles
+
+    nres, rough = [], []
+    for c in comps:
+        st_, m = probe.guarded(gbigsmiles.Molecule, c)
+        if st_ != "ok":
+            acc.count("component_not_parsable_dropped")
+            return
+        nres.append(len(m.residues))
+        st_, mg = probe.guarded(lambda: m.generate(rng=np.random.default_rng(seed)), seconds=60)
+        if st_ != "ok":
+            acc.count("component_not_generable_dropped")
+            return
+        rough.append(float(mg.weight))
+    mean_mass = 1.0 / sum(f / m for f, m in zip(frac, rough))
+    S = float(round(nmol * mean_mass))
+    text = ""
+    for j, (c, f, k) in enumerate(zip(comps, frac, kinds)):
+        v = f * 100 if k == "pct" else f * S
+        text += c + f".|{v!r}" + ("%|" if k == "pct" else "|")
+    case = {"text": text, "seed": seed, "poly": {"comps": comps, "frac": frac, "nmol": nmol, "kinds": kinds}}
+    sig = {"n": len(comps), "polymer": True, "same_text_blend": len({c.split("|")[0] for c in comps}) < len(comps)}
+    status, obj = probe.guarded(gbigsmiles.System, text)
+    if status != "ok" or not obj.generable:
+        acc.count("system_not_generable_dropped(C12's business)")
+        return
+    res = list(obj.residues)
+    if len(res) != sum(nres):
+        acc.count("residues_not_attributable_dropped")
+        return
+    idx, comp_of = {}, []
+    for ci, k in enumerate(nres):
+        comp_of += [ci] * k
+    for k, r in enumerate(res):
+        idx[id(r)] = k
+    Sobj = float(obj.system_mass)
+
+    def shares(seed_):
+        G = [0.0] * len(comps)
+        G2 = [0.0] * len(comps)
+        cnt = [0] * len(comps)
+        bad = 0
+        with probe.tag_residues(idx):
+            it = probe.system_generator(obj, probe.CountingRNG(seed_))
+            for mg in it:
+                tags = {mg.graph.nodes[nn].get("gbsv_tok", -1) for nn in mg.graph.nodes()}
+                cs = {comp_of[t] for t in tags if t is not None and 0 <= t < len(comp_of)}
+                if len(cs) != 1 or any(t is None or t < 0 for t in tags):
+                    bad += 1
+                    continue
+                ci = cs.pop()
+                w = float(mg.weight)
+                G[ci] += w
+                G2[ci] += w * w
+                cnt[ci] += 1
+                if sum(cnt) > 100000:
+                    break
+        return G, G2, cnt, bad
+
+    st_, r = probe.guarded(lambda: shares(seed), seconds=900)
+    if st_ != "ok":
+        if st_ == "raise" and "updating stopped" not in repr(r):
+            acc.violation("ensemble_raises", f"iterating System({text!r}) raised {r!r}", case, {**sig, "error": type(r).__name__}, size=len(text))
+        else:
+            acc.count("ensemble_failed_or_timeout_dropped")
+        return
+    G, G2, cnt, bad = r
+    if bad:
+        acc.count("members_not_attributable", bad)
+    tot = sum(G)
+    sh = [g / tot for g in G]
+    # size-biased mean member mass per component (declared-fraction weighted guess where a component produced nothing)
+    meff = [(G2[i] / G[i]) if G[i] > 0 else max(rough) for i in range(len(comps))]
+    mmax = max(meff) * 3
+
+    def eps(i):
+        f = frac[i]
+        var = (f * (1 - f) ** 2 * meff[i] + f * f * sum(frac[j] * meff[j] for j in range(len(comps)) if j != i)) / Sobj
+        return 8 * math.sqrt(1.5 * var) + 2 * mmax / Sobj
+    acc.case((text, seed) if max(rough) / min(rough) >= 3 or sig["same_text_blend"] else None,
+             labels=[f"n:{len(comps)}", "polymer_components", f"same_text_blend:{sig['same_text_blend']}"])
+    badc = [i for i in range(len(comps)) if abs(sh[i] - frac[i]) > eps(i)]
+    if badc:
+        st2, r2 = probe.guarded(lambda: shares(seed + 104729), seconds=900)
+        if st2 == "ok":
+            G_, _, _, _ = r2
+            sh2 = [g / sum(G_) for g in G_]
+            bad2 = [i for i in badc if abs(sh2[i] - frac[i]) > eps(i)]
+            if bad2:
+                i = bad2[0]
+                acc.violation("mass_share", f"System({text!r}) S={Sobj:.6g} ({sum(cnt)} molecules): component {i} ({comps[i]!r}, {cnt[i]} members) has generated mass share "
+                              f"{sh[i]:.4f} (second seed {sh2[i]:.4f}), declared {frac[i]:.4f}, tolerance {eps(i):.4f}", case, sig, size=len(text))
+            else:
+                acc.count("share_rejection_not_confirmed")
+    if acc.evaluations % 3 == 0:
+        acc.sample({"system": text, "molecules": sum(cnt), "declared": [round(x, 4) for x in frac], "generated_share": [round(x, 4) for x in sh],
+                    "tolerance": [round(eps(i), 4) for i in range(len(comps))]})
+
+
 def run_shard(cfg):
     acc = Acc()
     n = max(1, SIZES[cfg["tier"]] // cfg["nshards"])
     drive(sys_case(6000 if cfg["tier"] == "thorough" else 2400), lambda x: check(acc, *x), n, cfg["seed"])
+    drive(poly_case(), lambda x: check_poly(acc, *x), max(1, n // 2), cfg["seed"] + 1)
     return acc
 
 
 def replay(case, rec):
     import re
     acc = Acc()
+    if case.get("poly"):
+        pc = case["poly"]
+        check_poly(acc, pc["comps"], pc["frac"], pc["nmol"], pc["kinds"], case["seed"])
+        return acc
     # rebuild from the text
     parts = re.findall(r"([A-Za-z0-9()]+)\.\|([^|%]+)(%?)\|", case["text"])
     smis = [p[0] for p in parts]
